@@ -76,6 +76,10 @@ BUILDS["sess_calls"] = {"files": ["input_queue.rs", "sync_layer.rs", "network__p
 BUILDS["spect"] = {"files": ["network__protocol.rs", "sessions__p2p_spectator_session.rs"], "consts": {"SPECTATOR_BUFFER_SIZE": 8, "VCOLL_CAP": 4}}
 BUILDS["synct"] = {"files": ["input_queue.rs", "sync_layer.rs", "sessions__sync_test_session.rs"], "consts": {"INPUT_QUEUE_LENGTH": 8, "VCOLL_CAP": 4}}
 
+BUILDS["sess_perm"] = {"files": ["input_queue.rs", "sync_layer.rs", "network__protocol.rs", "sessions__p2p_session@ep.rs"],
+                       "consts": {"INPUT_QUEUE_LENGTH": 8, "VCOLL_CAP": 4, "CFG_ggrs_verif_permute": 1}}
+BUILDS["vcoll"] = {"files": ["vcoll.rs"], "consts": {"VCOLL_CAP": 4}}
+
 RING = {"extend_with": 17}
 def Q(n, **kw):
     kw.setdefault("timeout", 900); kw.setdefault("mem", 10); kw.setdefault("timeout_thorough", 5400); kw.setdefault("mem_thorough", 24)
@@ -122,6 +126,8 @@ PC_DELAY = [PC("pc_delay_1_to_0", unwindset={"drop_glue": 2, "verif_q": 9}, time
 Q_DELAY2 = [Q("q_delay_twice_1_2_2_control"), Q("q_delay_twice_2_0_0_control"),
             Q("q_delay_twice_1_2_3", finding="F4"), Q("q_delay_twice_2_0_3", finding="F4"), Q("q_delay_twice_1_3_1", finding="F4")]
 PE_TWO = [H("pe_two_disconnects_one_poll", "sess_ep", timeout=900, mem=12, unwindset={"extend_with": 9})]
+PE_PERM = [H("pe_gossip_order_independent", "sess_perm", timeout=1200, mem=12, unwindset={"extend_with": 9})]
+VC_SELF = [H("vc_map_laws", "vcoll", mem=4), H("vc_btree_order", "vcoll", mem=4)]
 PC_INPUT = [PC("pc_input_event")]
 PC_DISC = [PC("pc_disconnect_player_contract"), PC("pc_disconnected_event")]
 PC_EVENTS = [PC("pc_event_forwarding_and_cap"), PC("pc_wait_recommendation_respects_cap"), PC("pc_running_iff_all_synchronized")]
@@ -167,7 +173,7 @@ P("C08", U_MALFORMED + U_LIVENESS + [h for h in K_QUICK if h["name"].startswith(
 P("C09", U_CHECKSUM + PC_CHECKSUM,
   "Checksum report store of an endpoint stays within its cap under in-order reports (cap regenerated to 4), oldest entry dropped first, newest stored.",
   "Only the buffer/ordering kernel; the no-false-alarm half needs multi-tick session runs (outside reach).")
-P("C10", PE_CUTOFF + S_MIN + PC_INPUT,
+P("C10", PE_CUTOFF + S_MIN + PC_INPUT + PE_PERM,
   "Cut-off agreement kernel on the real update_player_disconnects with real endpoints: when a surviving peer gossips that a player is disconnected as of frame m and this peer holds its inputs up to L, this peer adopts min(L, m), schedules the resimulation from the next frame and does not re-arm it on the next tick.",
   "KNOWN FINDING F3: for m < L the unchanged tree keeps last_frame = L (see known_findings.json).")
 P("C11", Q_DELAY + Q_DELAY2 + Q_ADD + PC_DELAY,
@@ -181,7 +187,7 @@ P("C14", K_QUICK + K_THOROUGH, PROPERTIES["C14"]["claim"], PROPERTIES["C14"]["no
 P("C15", M_ALL + U_QUALITY + PC_WAIT,
   "Kernel only: TimeSync average (f32 bit-precise) within one frame of the true mean difference and within one of k in a steady k-frame lead; frame-advantage formula; quality report/reply bookkeeping (ping = now - echoed timestamp, what one side reports as local is the other's remote); network_stats error/values contract.",
   "The closed-loop settling claims need >= 30 frames of two live sessions: outside reach.", level="other")
-P("C17", U_HANDSHAKE + PE_TWO,
+P("C17", U_HANDSHAKE + PE_TWO + PE_PERM + VC_SELF,
   "Handshake behaviour is the same function of message order for every value of the random nonces (nonces symbolic in the inductive step).",
   "Hash-order independence (solver-chosen permutations of map iteration) not yet built.")
 P("C18", U_CAP + U_CHECKSUM + U_STREAM_Q + Q_ADD + PC_EVENTS[:2],
